@@ -1,6 +1,6 @@
 SPECIFICATION MCSpec
 CONSTANTS
-  Impl <- ImplFixed
+  Impl <- ImplOldIndex
 INVARIANTS TypeOK NoPanic ErrWhenRequired Frame
 PROPERTIES ContactGroupNeedsAccount
 CONSTRAINT MCBound
